@@ -2,7 +2,7 @@
    Result encoding: 0 :: values (normal), 1 :: [exn code] (raise), 9 :: [] (bad call).
    A weekday argument is the pair (has_wd, wd): has_wd = 0 means day_of_week=None. *)
 From Coq Require Import ZArith List Bool.
-From PV Require Import Lib.PyBase Spec.Cal Model.Weekday.
+From PV Require Import Lib.PyBase Spec.Cal Spec.Zone Model.TzConvert Model.TzDispatch Model.Weekday Model.WeekdayZone.
 Import ListNotations.
 Open Scope Z_scope.
 
@@ -13,6 +13,20 @@ Definition of_rd (r : result pdate) : list Z :=
 Definition of_rt (r : result pdt) : list Z :=
   match r with Ok x => [0; d_year (t_date x); d_month (t_date x); d_day (t_date x); t_tod x; t_zone x] | Raise e => [1; exn_code e] end.
 Definition mkt (y m d tod z : Z) : pdt := mkdt (mkdate y m d) tod z.
+
+(* DateTime in a tz-database zone: the instance pendulum.datetime(y, m, d, time, tz=zone, fold=f) is built by the model too.
+   Result: 0 :: result fields, fold, utcoffset() :: instance fields, fold   |  1 :: exn :: instance fields   |  [1; exn] when
+   the constructor raises. *)
+Definition zfields (x : zdt) : list Z := [d_year (z_date x); d_month (z_date x); d_day (z_date x); z_tod x; Z.b2z (z_fold x)].
+Definition z_call (z : zone) (op y m d tod f u n h w k : Z) : list Z :=
+  match z_create z y m d tod (zb f) with
+  | Raise e => [1; exn_code e]
+  | Ok x =>
+    match z_apply z op u n (owd h w) (zb k) x with
+    | Ok r => 0 :: zfields r ++ off_local z (z_wall r / MEG) (z_fold r) :: zfields x
+    | Raise e => 1 :: exn_code e :: zfields x
+    end
+  end.
 
 Definition dispatch (fn : Z) (args : list Z) : list Z :=
   match fn, args with
@@ -29,5 +43,15 @@ Definition dispatch (fn : Z) (args : list Z) : list Z :=
   | 22 (* t_first_of *), [u;y;m;d;tod;z;h;w] => of_rt (t_first_of u (mkt y m d tod z) (owd h w))
   | 23 (* t_last_of *), [u;y;m;d;tod;z;h;w] => of_rt (t_last_of u (mkt y m d tod z) (owd h w))
   | 24 (* t_nth_of *), [u;n;y;m;d;tod;z;w] => of_rt (t_nth_of u (mkt y m d tod z) n w)
+  | 30 (* z_call *), l =>
+      match parse_zone l with
+      | Some (z, [op;y;m;d;tod;f;u;n;h;w;k]) => z_call z op y m d tod f u n h w k
+      | _ => [9]
+      end
+  | 40 (* fw_first_of *), [fw;u;y;m;d;h;w] => of_rd (fw_first_of fw u (mkdate y m d) (owd h w))
+  | 41 (* fw_last_of *), [fw;u;y;m;d;h;w] => of_rd (fw_last_of fw u (mkdate y m d) (owd h w))
+  | 42 (* fw_nth_of *), [fw;u;n;y;m;d;w] => of_rd (fw_nth_of fw u (mkdate y m d) n w)
+  | 43 (* fw_mc_get *), [fw;y;m;i;c] => of_rz (mc_get_fw fw y m i c)
+  | 44 (* fw_mc_rows *), [fw;y;m] => [0; mc_rows_fw fw y m]
   | _, _ => [9]
   end.
